@@ -51,6 +51,15 @@ TableIndexOK(o) ==
 
 DiagnosisClean(o) == o.diagnose = <<>>
 
+\* the repository's own row readers see the table as it is stored: reading to the end yields the
+\* rows of the blocks in order (each identical to the stored row: the projection is -1 otherwise),
+\* and positioned reads at block-boundary offsets yield the row at that offset
+ReadersOK(o) ==
+  LET f == Flat(o.blocks) IN
+  /\ o.readers = f
+  /\ \A i \in 1..Len(o.seeks)   : o.seeks[i][1] + 1 \in 1..Len(f) /\ f[o.seeks[i][1] + 1] = o.seeks[i][2]
+  /\ \A i \in 1..Len(o.rowlist) : o.rowlist[i][1] + 1 \in 1..Len(f) /\ f[o.rowlist[i][1] + 1] = o.rowlist[i][2]
+
 TableWellFormed(o, B) ==
   /\ o.err = ""
   /\ CountOK(o)
@@ -59,6 +68,7 @@ TableWellFormed(o, B) ==
   /\ BlockIndexOK(o)
   /\ TableIndexOK(o)
   /\ DiagnosisClean(o)
+  /\ ReadersOK(o)
 
 \* which clause fails first (for signatures)
 FirstBroken(o, B) ==
@@ -69,5 +79,6 @@ FirstBroken(o, B) ==
   ELSE IF ~BlockIndexOK(o) THEN "blockindex"
   ELSE IF ~TableIndexOK(o) THEN "tableindex"
   ELSE IF ~DiagnosisClean(o) THEN "diagnose"
+  ELSE IF ~ReadersOK(o) THEN "readers"
   ELSE "ok"
 =============================================================================
